@@ -329,11 +329,9 @@ impl Maps {
             SerialNs::Call => (&mut self.s_c2r, &mut self.s_r2c),
             SerialNs::Query => (&mut self.q_c2r, &mut self.q_r2c),
         };
-        if let Some(old) = r2c.get(&real) {
-            // the broker may reuse a serial value after the entry is gone; overwrite
-            let old = *old;
-            c2r.remove(&old);
-        }
+        // The broker may reuse a serial value after the entry is gone. The older canonical name
+        // keeps pointing at the same real value (so that a stale reply for it is really sent with
+        // that value and must still be ignored); only real -> canonical moves to the newest name.
         c2r.insert(canon, real);
         r2c.insert(real, canon);
         Ok(())
